@@ -40,15 +40,39 @@ pub fn to_cel(v: &V) -> Option<Value> {
         V::Int(i) => Value::Int(*i),
         V::UInt(u) => Value::UInt(*u),
         V::Float(f) => Value::Float(f.0),
-        V::Str(s) => Value::String(Arc::new(s.clone())),
-        V::Bytes(b) => Value::Bytes(Arc::new(b.clone())),
-        V::List(xs) => Value::List(Arc::new(xs.iter().map(to_cel).collect::<Option<Vec<_>>>()?)),
-        V::Map(es) => {
-            let mut m = HashMap::new();
-            for (k, v) in es {
-                m.insert(key_to_cel(k)?, to_cel(v)?);
+        // collections and strings go through the crate's public conversions (`From<&str>`, `From<String>`, `From<Vec<T>>`,
+        // `From<Vec<u8>>`, `From<HashMap<K, V>>`) wherever one applies - that is how a host builds them
+        V::Str(s) => {
+            if s.len() % 2 == 0 {
+                Value::from(s.as_str())
+            } else {
+                Value::from(s.clone())
             }
-            Value::Map(Map { map: Arc::new(m) })
+        }
+        V::Bytes(b) => Value::from(b.clone()),
+        V::List(xs) => Value::from(xs.iter().map(to_cel).collect::<Option<Vec<Value>>>()?),
+        V::Map(es) => {
+            let vals = es.iter().map(|(_, v)| to_cel(v)).collect::<Option<Vec<Value>>>()?;
+            let all = |p: fn(&V) -> bool| !es.is_empty() && es.iter().all(|(k, _)| p(k));
+            if all(|k| matches!(k, V::Int(_))) {
+                let m: HashMap<i64, Value> = es.iter().zip(vals).map(|((k, _), v)| (if let V::Int(i) = k { *i } else { 0 }, v)).collect();
+                Value::from(m)
+            } else if all(|k| matches!(k, V::UInt(_))) {
+                let m: HashMap<u64, Value> = es.iter().zip(vals).map(|((k, _), v)| (if let V::UInt(i) = k { *i } else { 0 }, v)).collect();
+                Value::from(m)
+            } else if all(|k| matches!(k, V::Bool(_))) {
+                let m: HashMap<bool, Value> = es.iter().zip(vals).map(|((k, _), v)| (matches!(k, V::Bool(true)), v)).collect();
+                Value::from(m)
+            } else if all(|k| matches!(k, V::Str(_))) {
+                let m: HashMap<String, Value> = es.iter().zip(vals).map(|((k, _), v)| (if let V::Str(s) = k { s.clone() } else { String::new() }, v)).collect();
+                Value::from(m)
+            } else {
+                let mut m = HashMap::new();
+                for ((k, _), v) in es.iter().zip(vals) {
+                    m.insert(key_to_cel(k)?, v);
+                }
+                Value::Map(Map { map: Arc::new(m) })
+            }
         }
         V::Dur(s, n) => Value::Duration(dur_to_chrono(*s, *n)?),
         V::Ts(s, n, o) => Value::Timestamp(ts_to_chrono(*s, *n, *o)?),
@@ -183,13 +207,35 @@ pub enum Ran {
     Done(R),
 }
 
+thread_local! {
+    /// the program of the previous case (see `warm`)
+    static PREVIOUS: std::cell::RefCell<Option<Program>> = const { std::cell::RefCell::new(None) };
+}
+
+/// Before the program under test runs, the *previous* case's program is executed against the same fresh context and its
+/// outcome thrown away.  Executing a program never changes the context it ran against (C05), so on a correct implementation
+/// this is invisible; an implementation that keeps per-context state keyed by something that is only unique within one
+/// program (expression ids, call sites, literal positions) answers the program under test with the other program's data.
+pub fn warm(ctx: &Context) {
+    if let Some(p) = PREVIOUS.with(|c| c.borrow_mut().take()) {
+        let _ = guard(|| p.execute(ctx).map(|_| ()).map_err(|_| ()));
+    }
+}
+
+pub fn remember(p: Program) {
+    PREVIOUS.with(|c| *c.borrow_mut() = Some(p));
+}
+
 pub fn run_src(src: &str, vars: &[(String, V)]) -> Ran {
     match compile(src) {
         Err(p) => Ran::CompilePanic(p),
         Ok(Err(e)) => Ran::NoCompile(e),
         Ok(Ok(p)) => {
             let ctx = ctx_with(vars);
-            Ran::Done(exec(&p, &ctx))
+            warm(&ctx);
+            let r = exec(&p, &ctx);
+            remember(p);
+            Ran::Done(r)
         }
     }
 }
@@ -208,6 +254,10 @@ pub fn run_src_wrapped(src: &str, vars: &[(String, V)]) -> Ran {
                         Some(dt) => ctx.add_variable(n.as_str(), cel_interpreter::Timestamp(dt)).map_err(|e| e.to_string()),
                         None => Err("not representable".to_string()),
                     },
+                    V::Dur(secs, nanos) => match dur_to_chrono(*secs, *nanos) {
+                        Some(d) => ctx.add_variable(n.as_str(), cel_interpreter::Duration(d)).map_err(|e| e.to_string()),
+                        None => Err("not representable".to_string()),
+                    },
                     other => match to_cel(other) {
                         Some(c) => {
                             ctx.add_variable_from_value(n.as_str(), c);
@@ -222,7 +272,31 @@ pub fn run_src_wrapped(src: &str, vars: &[(String, V)]) -> Ran {
                     Err(p) => return Ran::Done(R::Panic(p)),
                 }
             }
-            Ran::Done(exec(&p, &ctx))
+            warm(&ctx);
+            let r = exec(&p, &ctx);
+            remember(p);
+            Ran::Done(r)
+        }
+    }
+}
+
+/// One compiled program executed first against the usual context (`Context::default()` + variables) and then, the same
+/// `Program` value, against a context built from `Context::empty()` with the same variables and no functions at all.
+/// Returns the second outcome.
+pub fn run_then_on_empty(src: &str, vars: &[(String, V)]) -> Ran {
+    match compile(src) {
+        Err(p) => Ran::CompilePanic(p),
+        Ok(Err(e)) => Ran::NoCompile(e),
+        Ok(Ok(p)) => {
+            let ctx = ctx_with(vars);
+            let _ = exec(&p, &ctx);
+            let mut bare = Context::empty();
+            for (n, v) in vars {
+                if let Some(c) = to_cel(v) {
+                    bare.add_variable_from_value(n.as_str(), c);
+                }
+            }
+            Ran::Done(exec(&p, &bare))
         }
     }
 }
@@ -256,6 +330,15 @@ fn boom(name: &str) -> ExecutionError {
 }
 
 pub fn install_host(ctx: &mut Context, log: &Log, table: &Table) {
+    // functions registered under the internal names of the operators: operators are not looked up in the registry, so
+    // these never run - and if one ever does, its log entry has no counterpart in the reference semantics
+    for op in ["_+_", "_-_", "_*_", "_/_", "_%_", "_==_", "_<_", "_[_]", "@in", "_&&_", "_||_", "!_", "-_"] {
+        let l = log.clone();
+        ctx.add_function(op, move |Arguments(args): Arguments| -> ResolveResult {
+            l.lock().unwrap().push(format!("operator-function:{op}/{}", args.len()));
+            Ok(Value::Null)
+        });
+    }
     let l = log.clone();
     ctx.add_function("t", move |id: Value, v: Value| -> ResolveResult {
         l.lock().unwrap().push(format!("t:{}", show_key(&from_cel(&id))));
@@ -374,8 +457,11 @@ pub fn run_logged(src: &str, vars: &[(String, V)], table: &Table) -> (Ran, Vec<S
             let log = new_log();
             let mut ctx = ctx_with(vars);
             install_host(&mut ctx, &log, table);
+            warm(&ctx);
+            log.lock().unwrap().clear();
             let r = exec(&p, &ctx);
             let l = log.lock().unwrap().clone();
+            remember(p);
             (Ran::Done(r), l)
         }
     }
